@@ -2,15 +2,20 @@
 
 Case = {"root": LEAF, "mode0": bool, ...}.  AST:
 
+  V (a value)   None | int | {"x": i} a fresh VErr(i) instance (Exception subclass) used as DATA
+                | {"bx": i} a fresh VBase(i) instance (BaseException subclass) used as data
   S (what a yield statement yields)
-      None | {"c": v} ConstFuture(v) | {"bad": n} the int n | {"t": FN} | {"px": PX}
+      None | {"c": V} ConstFuture(V) | {"bad": n} the int n | {"t": FN} | {"px": PX}
       | {"tuple": [S]} | {"list": [S]} | {"dict": [[key, S], ...]}
   FN  {"id", "kind": gen|plain|method, "afn": none|twin|native, "delay", "allow", "body": [STMT]}
-  PX  {"id", "kind": fn|method, "ret": {"c": v} | {"t": FN}}          an @async_proxy() function
+  PX  {"id", "kind": fn|method, "ret": {"c": V} | {"t": FN}}          an @async_proxy() function
   STMT {"y": S, "site": n}            acc.append((yield S))
        {"try": [STMT], "exc": [STMT]} try: ... except Exception as e: acc.append({-1: id(e)}); ...
+         ... "keep": true             ... except Exception as e: acc.append(e); ...   (the instance itself, as data)
        {"raise": eid} | {"ret": 1}    raise VErr(eid) | return acc
-       {"push": v}                    acc.append(v)
+       {"retv": [V]}                  return V          (a bare value instead of the accumulator)
+       {"retlast": 1}                 return acc[-1] if acc else None
+       {"push": V}                    acc.append(V)
        {"sync": LEAF}                 acc.append(g(arg))   -- a plain synchronous call
   a body that falls off its end returns acc (the list of everything it received).
 """
@@ -29,14 +34,19 @@ RULE = ("batch-free tree programs: 1..30 @asynq() functions / methods / plain (n
         "empty ones, with or without an explicit asyncio_fn (native coroutine with 0..3 suspensions, or a coroutine "
         "awaiting the converted twin), started from a context whose flag is off (85%) or already on; about 10% of the cases "
         "contain plain synchronous calls (with/without allow_sync_call); 12% malformed stream (non-futures inside "
-        "structures, bare int yields); distinct = different canonical AST; non-trivial = a nested structure or an "
+        "structures, bare int yields); about half of the cases use exception INSTANCES AS DATA (15-60% of their values): "
+        "ConstFuture(exc), a proxy returning it, `return exc` from a generator / plain function / native asyncio_fn, an except "
+        "clause that keeps the caught instance and returns it (`return acc[-1]`), Exception and BaseException subclasses, as "
+        "members of tuple/list/dict yields (about a quarter of all cases) and as bare yields; bodies return the accumulator, a bare "
+        "value or the last thing received; distinct = different canonical AST; non-trivial = a nested structure or an "
         "except clause that is reached statically")
 TRUSTED = ["the asyncio event loop (asyncio.run, ensure_future, asyncio.wait, contextvars copy per Task) is exercised, not modelled",
            "harness/props/c15.py emit: JSON AST -> Gallina resumption (CPS of the statement list); the same AST is interpreted "
            "by real generator closures in harness/impl/c15_impl.py"]
-EXPLANATION = ("Seven Coq theorems (props/C15.v, closed under the global context) about Asyncio.v: drive/resolve/await_leaf/"
+EXPLANATION = ("Eight Coq theorems (props/C15.v, closed under the global context) about Asyncio.v: drive/resolve/await_leaf/"
                "call_asyncio model decorators.py:109-140,170-230,290-308 and asynq_to_async.py:24-90; eval/unwrap model what the "
-               "scheduler computes for a batch-free tree program.  Programs are HOAS resumptions (continuations are arbitrary "
+               "scheduler computes for a batch-free tree program; values include exception instances used as data (VExc: a member "
+               "that returned an exception object succeeded - exception_value_is_data).  Programs are HOAS resumptions (continuations are arbitrary "
                "Gallina functions outcome -> prog), so the theorems hold for every finite program of the class, not for a syntax.  "
                "Each generated case is run as root(arg) and as `await root.asyncio(arg)` under asyncio.run in the pure and the "
                "Cython build; both outcomes, the flag after the await and the multiset of body-start/completion/sync-call events "
@@ -48,7 +58,7 @@ ASSUMPTIONS = [
     "program class per DESIGN 5.21 row C15: tasks, ConstFuture, None, nested tuple/list/dict, raise, try/except Exception, return; "
     "no result(), ErrorFuture, lazy Future, batches, shared handles; an @async_proxy() function returns a future (does not raise)",
     "an explicit asyncio_fn is assumed to agree with the asynq function (hypothesis `agree` of the theorems; built so by the generator)",
-    "exceptions are Exception subclasses",
+    "raised exceptions are Exception subclasses (BaseException subclasses occur only as values, never raised)",
 ]
 
 # ------------------------------------------------------------------------------------------ AST helpers
@@ -116,6 +126,8 @@ class _Emit:
         return self.n
 
     def val(self, v):
+        if isinstance(v, dict):
+            return "(VExc (%d)%%Z)" % (v["x"] if "x" in v else v["bx"])
         return "VNone" if v is None else "(VInt (%d)%%Z)" % v
 
     def cfg(self, fn):
@@ -169,8 +181,9 @@ class _Emit:
         if "try" in st:
             join = "(fun ja%d : list val => %s)" % (i, self.stmts(rest, "ja%d" % i, kn, ke))
             kj = lambda a: "(j%d %s)" % (i, a)
-            handler = "(fun (he%d : exn) (ha%d : list val) => let hb%d := (ha%d ++ [VDict [((-1)%%Z, VInt he%d)]]) in %s)" % (
-                i, i, i, i, i, self.stmts(st["exc"], "hb%d" % i, kj, ke))
+            kept = ("VExc he%d" if st.get("keep") else "VDict [((-1)%%Z, VInt he%d)]") % i
+            handler = "(fun (he%d : exn) (ha%d : list val) => let hb%d := (ha%d ++ [%s]) in %s)" % (
+                i, i, i, i, kept, self.stmts(st["exc"], "hb%d" % i, kj, ke))
             kh = lambda e, a: "(h%d %s %s)" % (i, e, a)
             return "(let j%d := %s in let h%d := %s in %s)" % (i, join, i, handler, self.stmts(st["try"], acc, kj, kh))
         if "push" in st:
@@ -179,6 +192,10 @@ class _Emit:
             return ke("(%d)%%Z" % st["raise"], acc)
         if "ret" in st:
             return "(Ret (VList %s))" % acc
+        if "retv" in st:
+            return "(Ret %s)" % self.val(st["retv"][0])
+        if "retlast" in st:
+            return "(Ret (last %s VNone))" % acc
         raise ValueError(st)
 
 
@@ -189,8 +206,9 @@ def model_input(c):
 
 # ------------------------------------------------------------------------------------------ generator
 class _Gen:
-    def __init__(self, rng, malformed, sync, budget):
+    def __init__(self, rng, malformed, sync, budget, xp=0.0):
         self.rng = rng
+        self.xp = xp              # probability that a generated value is an exception instance (used as data)
         self.malformed = malformed
         self.sync = sync
         self.budget = budget      # remaining number of call nodes
@@ -204,12 +222,29 @@ class _Gen:
 
     def val(self):
         r = self.rng
+        if self.xp and r.random() < self.xp:
+            return {"x": self.eid()} if r.random() < 0.85 else {"bx": self.eid()}
         return None if r.random() < 0.15 else r.randrange(0, 40)
+
+    def ret_stmt(self):
+        """one of the three return forms: the accumulator, a bare value, the last thing received/caught"""
+        x = self.rng.random()
+        if x < 0.5:
+            return {"ret": 1}
+        if x < 0.78:
+            return {"retv": [self.val()]}
+        return {"retlast": 1}
 
     def leaf_body(self):
         """yield-free body for plain functions / native coroutines / sync callees"""
         r = self.rng.random()
         pre = [{"push": self.val()}] if self.rng.random() < 0.8 else []
+        x = self.rng.random()
+        if x < (0.3 if self.xp else 0.08):
+            # return a bare value / catch the own error and hand it back as data
+            if self.rng.random() < 0.6:
+                return pre + [{"retv": [self.val()]}]
+            return [{"try": pre + [{"raise": self.eid()}], "exc": [], "keep": self.rng.random() < 0.8}, {"retlast": 1}]
         if r < 0.55:
             return pre
         if r < 0.8:
@@ -292,11 +327,14 @@ class _Gen:
                 site = self.nsite
                 out.append({"y": self.struct(depth, 0), "site": site})
             elif x < 0.8 and tdepth < 3:
-                out.append({"try": self.stmts(depth, tdepth + 1), "exc": self.stmts(depth, tdepth + 1) if r.random() < 0.6 else []})
+                st = {"try": self.stmts(depth, tdepth + 1), "exc": self.stmts(depth, tdepth + 1) if r.random() < 0.6 else []}
+                if r.random() < (0.4 if self.xp else 0.05):
+                    st["keep"] = True
+                out.append(st)
             elif x < 0.85:
                 out.append({"raise": self.eid()})
             elif x < 0.88:
-                out.append({"ret": 1})
+                out.append(self.ret_stmt())
             elif x < 0.91:
                 out.append({"push": self.val()})
             elif self.sync:
@@ -311,14 +349,15 @@ class _Gen:
 def gen_case(rng):
     malformed = rng.random() < 0.12
     sync = rng.random() < 0.15
-    g = _Gen(rng, malformed, sync, rng.choice([1, 2, 3, 5, 8, 12, 20, 30]))
+    xp = rng.choice([0, 0, 0, 0, 0.15, 0.3, 0.3, 0.6])
+    g = _Gen(rng, malformed, sync, rng.choice([1, 2, 3, 5, 8, 12, 20, 30]), xp)
     depth = rng.choice([1, 2, 2, 3, 3, 4])
     x = rng.random()
     if x < 0.1:
         root = {"px": g.px(depth)}
     else:
         root = {"t": g.fn(depth)}
-    c = {"root": root, "mode0": rng.random() < 0.15, "meta": {"malformed": malformed, "sync": sync}}
+    c = {"root": root, "mode0": rng.random() < 0.15, "meta": {"malformed": malformed, "sync": sync, "xval": xp > 0}}
     c["tree"] = {"root": root, "mode0": c["mode0"]}
     return c
 
@@ -327,10 +366,10 @@ def _exhaustive_small():
     """every structure of a small grammar around one failing / one succeeding child (thorough tier)"""
     cases = []
 
-    def leaf(i, fail):
+    def leaf(i, fail, xret=False):
         return {"t": {"id": i, "kind": "gen", "afn": "none", "delay": 0, "allow": False,
-                      "body": [{"raise": 100 + i}] if fail else []}}
-    atoms = ["ok", "fail", "const", "none"]
+                      "body": [{"raise": 100 + i}] if fail else [{"retv": [{"x": 200 + i}]}] if xret else []}}
+    atoms = ["ok", "fail", "const", "none", "xconst", "xok"]
     shapes = []
     for a in atoms:
         for b in atoms:
@@ -338,7 +377,7 @@ def _exhaustive_small():
                 for inner in (None, "tuple", "list", "dict"):
                     shapes.append((a, b, wrap, inner))
     for (a, b, wrap, inner) in shapes:
-        ids = iter(range(2, 50))
+        ids = iter(range(2, 90))
 
         def atom(k):
             if k == "ok":
@@ -347,6 +386,10 @@ def _exhaustive_small():
                 return leaf(next(ids), True)
             if k == "const":
                 return {"c": 7}
+            if k == "xconst":
+                return {"c": {"x": 300 + next(ids)}}
+            if k == "xok":
+                return leaf(next(ids), False, True)
             return None
 
         def mk(kind, items):
@@ -415,7 +458,66 @@ CORPUS = [
                         {"try": [{"sync": {"px": {"id": 4, "kind": "fn", "ret": {"t": _fn(5, [])}}}}], "exc": []},
                         {"sync": {"t": _fn(6, [], "plain", allow=True)}},
                         {"y": {"t": _fn(7, [{"sync": {"t": _fn(8, [])}}])}, "site": 1}])}),
+    # exception instances as DATA: the minimal case `yield [f.asynq()]` where f does `return VErr(..)`
+    _case({"t": _fn(1, [{"y": {"list": [{"t": _fn(2, [{"retv": [{"x": 102}]}])}]}, "site": 1}])}),
+    # a dict of validation results: a validator that returns its error, one that catches its own error and hands the
+    # caught instance back, a ConstFuture / a proxy / an explicit asyncio_fn holding exception objects, nested
+    _case({"t": _fn(1, [{"y": {"dict": [[0, {"list": [{"t": _fn(2, [])},
+                                                       {"t": _fn(3, [{"try": [{"raise": 103}], "exc": [], "keep": True}, {"retlast": 1}])},
+                                                       {"t": _fn(4, [{"retv": [{"x": 104}]}], "plain", "native", 2)}]}],
+                                         [1, {"c": {"bx": 105}}],
+                                         [2, {"tuple": [{"px": {"id": 6, "kind": "fn", "ret": {"c": {"x": 106}}}}, {"tuple": [{"c": {"x": 107}}]}]}]]},
+                         "site": 1}])}),
+    # an exception *value* earlier in structure order than a real failure: the failure is what is raised; the parent keeps
+    # the caught instance as data, yields again and returns it
+    _case({"t": _fn(1, [{"try": [{"y": {"tuple": [{"t": _fn(2, [{"retv": [{"x": 102}]}], "gen", "native", 1)},
+                                                   {"t": _fn(3, [{"raise": 103}])}]}, "site": 1}],
+                         "exc": [{"y": {"list": [{"c": {"x": 108}}, {"t": _fn(4, [{"retv": [{"bx": 104}]}], "method")}]}, "site": 2}],
+                         "keep": True},
+                        {"retlast": 1}])}),
 ]
+
+
+def _is_xv(v):
+    return isinstance(v, dict) and ("x" in v or "bx" in v)
+
+
+def _returns_exc_value(s):
+    """statically: may this direct member of a collection complete successfully with an exception instance as its value"""
+    if s is None:
+        return False
+    if "c" in s:
+        return _is_xv(s["c"])
+    if "px" in s:
+        r = s["px"]["ret"]
+        return _is_xv(r["c"]) if "c" in r else _returns_exc_value(r)
+    if "t" in s:
+        sts = list(walk_stmts(s["t"]["body"]))
+        return any(("retv" in st and _is_xv(st["retv"][0])) for st in sts) or (
+            any("retlast" in st for st in sts) and any(st.get("keep") or ("push" in st and _is_xv(st["push"])) for st in sts))
+    return False
+
+
+def exc_value_profile(c):
+    """(has an exception-instance value anywhere, a collection yield has a member that may complete with one)"""
+    anyx = incoll = False
+    for n in sub_fns(c["root"]):
+        if "ret" in n:
+            anyx = anyx or ("c" in n["ret"] and _is_xv(n["ret"]["c"]))
+            continue
+        for st in walk_stmts(n["body"]):
+            if st.get("keep") or ("push" in st and _is_xv(st["push"])) or ("retv" in st and _is_xv(st["retv"][0])):
+                anyx = True
+            if "y" in st:
+                for x in walk_struct(st["y"]):
+                    if x is None:
+                        continue
+                    if "c" in x and _is_xv(x["c"]):
+                        anyx = True
+                    items = x.get("tuple") or x.get("list") or [y for _, y in x.get("dict", [])]
+                    if any(_returns_exc_value(y) for y in items):
+                        incoll = True
+    return anyx, incoll
 
 
 def canon(c):
@@ -435,7 +537,8 @@ def nontrivial(c):
 
 def distribution(cases):
     d = {"calls": {}, "root": {}, "kinds": {}, "afn": {}, "struct_depth": {}, "mode0": 0, "malformed": 0, "sync": 0,
-         "with_try": 0, "with_failure": 0, "with_proxy": 0}
+         "with_try": 0, "with_failure": 0, "with_proxy": 0, "with_exception_value": 0,
+         "collection_member_completes_with_exception_value": 0, "bare_value_return": 0}
 
     def sdepth(s):
         if s is None or not any(k in s for k in ("tuple", "list", "dict")):
@@ -468,6 +571,10 @@ def distribution(cases):
         d["with_try"] += tr
         d["with_failure"] += fl
         d["with_proxy"] += px
+        ax, ic = exc_value_profile(c)
+        d["with_exception_value"] += ax
+        d["collection_member_completes_with_exception_value"] += ic
+        d["bare_value_return"] += any("retv" in st or "retlast" in st for nd in nodes if "body" in nd for st in walk_stmts(nd["body"]))
     return d
 
 
@@ -501,12 +608,19 @@ def _okind(o):
     return {-1: "TypeError", -9: "RuntimeError"}.get(e, "exception")
 
 
+def _vtree(v):
+    """the tree form (as the runner prints values) of an AST value"""
+    if isinstance(v, dict):
+        return {"VExc": [v["x"] if "x" in v else v["bx"]]}
+    return "VNone" if v is None else {"VInt": [v]}
+
+
 def _shape_ok(s, v):
     """does the value tree v have the shape of the yielded structure s (leaves: anything)"""
     if s is None:
         return v == "VNone"
     if "c" in s:
-        return v == ("VNone" if s["c"] is None else {"VInt": [s["c"]]})
+        return v == _vtree(s["c"])
     if "t" in s or "px" in s:
         return True
     if "bad" in s:
@@ -533,7 +647,7 @@ def _leaf_values(s, v, out):
         if "t" in r:
             out.append((r["t"]["id"], v))
         else:
-            out.append((None, (v, "VNone" if r["c"] is None else {"VInt": [r["c"]]})))
+            out.append((None, (v, _vtree(r["c"]))))
     elif "tuple" in s or "list" in s:
         for x, y in zip(s.get("tuple", s.get("list")), v["VTuple" if "tuple" in s else "VList"][0]):
             _leaf_values(x, y, out)
@@ -600,6 +714,15 @@ def monitors(c, io, build):
                            msg="yield site %d of call %s was resumed with %s while calls %s yielded together with it had not finished" % (
                                ev[2], ev[1], json.dumps(got)[:120], late)))
             continue
+        # exception instances that members of this yield completed *successfully* with (their values)
+        held = set()
+        for x in leaves:
+            if "bad" in x:
+                continue
+            cid = _call_id(x)
+            o = done_out.get(cid) if cid is not None else {"Ok": [_vtree((x["c"] if "c" in x else x["px"]["ret"]["c"]))]}
+            if o and "Ok" in o and isinstance(o["Ok"][0], dict) and "VExc" in o["Ok"][0]:
+                held.add(o["Ok"][0]["VExc"][0])
         # expected first failure in structure order
         first = None
         for x in leaves:
@@ -612,14 +735,20 @@ def monitors(c, io, build):
                 break
         if first is not None:
             if got != {"Err": [first]}:
-                what = "value" if "Ok" in got else "other-exception"
+                what = "value" if "Ok" in got else "exception-object-returned-by-a-member" if got["Err"][0] in held else "other-exception"
                 fs.append(dict(clause="first-error-in-order", site="%s:%s-instead-of-first-failure" % (skind, what),
                                msg="yield site %d of call %s: the first failure in structure order is %s but the yield delivered %s" % (
                                    ev[2], ev[1], first, json.dumps(got)[:160])))
             continue
         if "Err" in got:
-            fs.append(dict(clause="first-error-in-order", site="%s:exception-without-failed-child" % skind,
-                           msg="yield site %d of call %s raised %s although nothing yielded there failed" % (ev[2], ev[1], json.dumps(got)[:120])))
+            # nothing yielded here failed.  Is the raised instance one that a member *returned* (its value)?
+            if got["Err"][0] in held:
+                fs.append(dict(clause="first-error-in-order", site="%s:exception-object-returned-by-a-member-raised-at-the-yield" % skind,
+                               msg="yield site %d of call %s raised %s: no member failed, the raised instance is the *value* a member "
+                                   "completed with (members' exception values: %s)" % (ev[2], ev[1], json.dumps(got)[:120], sorted(held))))
+            else:
+                fs.append(dict(clause="first-error-in-order", site="%s:exception-without-failed-child" % skind,
+                               msg="yield site %d of call %s raised %s although nothing yielded there failed" % (ev[2], ev[1], json.dumps(got)[:120])))
             continue
         v = got["Ok"][0]
         if not _shape_ok(s, v):
@@ -770,6 +899,10 @@ def shrink(c):
                             return s["dict"][i][1]
                     s["dict"] = [[k2, s_struct(x)] for k2, x in s["dict"]]
                     return s
+                if "c" in s and _is_xv(s["c"]):
+                    if try_apply():
+                        return {"c": 1}
+                    return s
                 if "t" in s:
                     if try_apply():
                         return {"c": 1}
@@ -792,6 +925,9 @@ def shrink(c):
                     if "try" in st:
                         if try_apply():
                             stmts[i:i + 1] = st["try"]
+                            return
+                        if st.get("keep") and try_apply():
+                            del st["keep"]
                             return
                         s_stmts(st["try"])
                         s_stmts(st["exc"])
